@@ -68,10 +68,12 @@ func templates() []template {
 
 // directive options for one site
 type opt struct {
-	skip, include int // -1 absent, 0 false, 1 true
+	skip, include int  // -1 absent, 0 false, 1 true
+	rev           bool // both present: @include written before @skip
 }
 
-var opts = []opt{{-1, -1}, {1, -1}, {0, -1}, {-1, 1}, {-1, 0}, {1, 1}, {1, 0}, {0, 1}, {0, 0}}
+var opts = []opt{{-1, -1, false}, {1, -1, false}, {0, -1, false}, {-1, 1, false}, {-1, 0, false}, {1, 1, false}, {1, 0, false}, {0, 1, false}, {0, 0, false},
+	{1, 1, true}, {1, 0, true}, {0, 1, true}, {0, 0, true}}
 
 func (o opt) included() bool { return o.skip != 1 && o.include != 0 }
 
@@ -123,8 +125,13 @@ func (o opt) text(site int, mode int, vars map[string]interface{}, decls *[]stri
 			fmt.Fprintf(&sb, " @%s(if: %t)", name, v == 1)
 		}
 	}
-	emit("skip", o.skip)
-	emit("include", o.include)
+	if o.rev {
+		emit("include", o.include)
+		emit("skip", o.skip)
+	} else {
+		emit("skip", o.skip)
+		emit("include", o.include)
+	}
 	return sb.String()
 }
 
@@ -141,7 +148,7 @@ type printer struct {
 func (p *printer) nodes(ns []*node) string {
 	var parts []string
 	for _, n := range ns {
-		o := opt{-1, -1}
+		o := opt{-1, -1, false}
 		if n.site >= 0 {
 			o = p.assign[n.site]
 		}
@@ -243,7 +250,14 @@ func enumerate(rp *explore.Report, tier string, prefix string, ts []template, ex
 				}
 				c /= nopts
 			}
+			anyRev := false
+			for _, o := range assign {
+				anyRev = anyRev || o.rev
+			}
 			for byVar := 0; byVar < nModes; byVar++ {
+				if anyRev && byVar >= mDefaultOver {
+					continue // the written order of the two directives is varied for literal and required-variable conditions
+				}
 				*k++
 				if !rp.Mine(*k) {
 					continue
@@ -338,7 +352,7 @@ func runFed(rp *explore.Report, tier string) {
 
 func init() {
 	reg.Register(&reg.Harness{Property: "C19", Name: "c19/gateway", Level: "exploration", Run: runFed,
-		Rule: "the same enumeration through the federation gateway: 5 templates (fields on different services, same-alias selections, a fragment spread twice, union member fragments, a two-hop plan) x 9^3 directive assignments x the six condition transports, over a two-service split of the fedfix domain; oracle: gateway(annotated) == gateway(pruned)"})
+		Rule: "the same enumeration through the federation gateway: 5 templates (fields on different services, same-alias selections, a fragment spread twice, union member fragments, a two-hop plan) x 13^3 directive assignments (both written orders of a skip+include pair) x the six condition transports, over a two-service split of the fedfix domain; oracle: gateway(annotated) == gateway(pruned)"})
 	reg.Register(&reg.Harness{Property: "C19", Name: "c19/directives", Level: "exploration", Run: run,
-		Rule: "14 query templates (fields, same-alias objects/leaves, inline fragments, one named fragment spread twice in different and in the same selection set, union member fragments incl. the same member twice, spreads under unions, nested fragments, aliases+arguments) x every assignment of {none, skip T/F, include T/F, both in all four combinations} to 3 directive sites x condition transport {literal, required variable, variable with a default that the supplied value overrides, default used (variable absent), default used (variable null), a mix of the last three over the sites}; oracle: Execute(annotated) == Execute(textually pruned query); non-trivial = at least one directive present"})
+		Rule: "14 query templates (fields, same-alias objects/leaves, inline fragments, one named fragment spread twice in different and in the same selection set, union member fragments incl. the same member twice, spreads under unions, nested fragments, aliases+arguments) x every assignment of {none, skip T/F, include T/F, both in all four combinations and both written orders} to 3 directive sites x condition transport {literal, required variable, variable with a default that the supplied value overrides, default used (variable absent), default used (variable null), a mix of the last three over the sites}; oracle: Execute(annotated) == Execute(textually pruned query); non-trivial = at least one directive present"})
 }
